@@ -90,13 +90,25 @@ let run_case (line : string) : string =
   let tainted : mpeer list ref = ref [] in       (* peers that had an ambiguous lookup *)
   let kp_peers : mpeer list ref = ref [] in      (* peers named in a file the parser stopped in *)
   let known : mpeer list ref = ref [] in         (* peers the property's reading has met *)
-  let pending : mfile list ref = ref [] in
-  let cur : mrec list option ref = ref None in
+  (* the queue holds paths: an entry = (path, what is written there just before it is queued, if anything);
+     store = the tree (MrtModel.fstore), table = every file of the case as it was created (ops R, C refer to it) *)
+  let pending : (mpath * mfile option) list ref = ref [] in
+  let store : fstore ref = ref [] in
+  let table : (mpath * mfile) list ref = ref [] in
+  let cur : (mrec list * mpath option) option ref = ref None in
   let nfiles = ref 0 in
+  let new_file path f =
+    let path = match path with Some p -> p | None -> [n (1000 + !nfiles)] in
+    pending := !pending @ [(path, Some f)]; table := !table @ [(path, f)]; incr nfiles in
   let close () = match !cur with
-    | Some recs -> pending := !pending @ [FGood (n !nfiles, Stdlib.List.rev recs)]; incr nfiles; cur := None
+    | Some (recs, path) -> cur := None; new_file path (FGood (n !nfiles, Stdlib.List.rev recs))
     | None -> () in
-  let add rc = match !cur with Some recs -> cur := Some (rc :: recs) | None -> cur := Some [rc] in
+  let nth_file k = match !table with [] -> None | t -> Some (Stdlib.List.nth t (k mod Stdlib.List.length t)) in
+  (* F c sub base: <sub>/u<base>.mrt[.gz|.bz2]; sub = - or dotted directory letters *)
+  let path_of sub base comp : mpath =
+    (if sub = "-" then [] else Stdlib.List.map (fun d -> n (Char.code d.[0])) (String.split_on_char '.' sub))
+    @ [n (100 + 4 * base + (match comp with "g" -> 1 | "b" -> 2 | _ -> 0))] in
+  let add rc = match !cur with Some (recs, p) -> cur := Some (rc :: recs, p) | None -> cur := Some ([rc], None) in
   (* the model's walk over one file, keeping the candidates of every lookup *)
   let walk r recs =
     let r = ref r and out = ref [] in
@@ -158,21 +170,26 @@ let run_case (line : string) : string =
   let ids_of_peer p = Stdlib.List.sort compare (Stdlib.List.map int_of_n (IngressModel.reg_find_peers !reg (mrt_query parent p))) in
   let barrier () =
     close ();
-    let files = !pending in
+    let entries = !pending in
     pending := [];
-    let per_file = Stdlib.List.map (fun f ->
+    let per_file = Stdlib.List.map (fun (path, written) ->
+        (* what the path holds when its turn comes *)
+        (match written with Some f -> store := store_write !store path f | None -> ());
+        let f = resolve !store path in
         let ann = annotate !reg f in
         let ((r1, us), st) = process_file parent !reg f in
         (* the annotated walk must be the model's own answer *)
         if Stdlib.List.length ann <> Stdlib.List.length us then failwith "annotate: length";
         Stdlib.List.iter2 (fun a u -> let b = mu_of u a.cands in if b.id <> a.id || b.tail <> a.tail then failwith "annotate: differs") ann us;
-        reg := r1;
-        Stdlib.List.iter (fun u -> rib := RibModel.rib_apply !rib u) us;
+        (* register and RIB move by the model's per-entry step (MrtModel.entry_step) *)
+        ignore r1;
+        let (r1', rb') = entry_step parent !store (!reg, !rib) path in
+        reg := r1'; rib := rb';
         hist := !hist @ us;
         ideal := i_file !ideal f;
         let spec = spec_stream f in
         if st = SStop && f <> FBad then kp_peers := peers_in f @ !kp_peers;
-        (ann, spec, st, f)) files in
+        (ann, spec, st, f)) entries in
     (* names are given with the register as it stands after the batch *)
     let name_m (u : mu) =
       if u.kind = "u" && u.tail = ":" then "" else
@@ -214,8 +231,14 @@ let run_case (line : string) : string =
     let i k = int_of_string (Stdlib.List.nth toks k) in
     let t k = Stdlib.List.nth toks k in
     match Stdlib.List.hd toks with
-    | "F" -> close (); cur := Some []
-    | "X" -> close (); pending := !pending @ [FBad]; incr nfiles
+    | "F" -> close (); cur := Some ([], if Stdlib.List.length toks >= 4 then Some (path_of (t 2) (i 3) (t 1)) else None)
+    | "X" -> close (); new_file None FBad
+    (* R k [spelling]: the path of file k is queued once more; C k: the content of file k under a new name *)
+    | "R" -> close (); (match nth_file (i 1) with Some (p, _) -> pending := !pending @ [(p, None)] | None -> ())
+    | "C" -> close (); (match nth_file (i 1) with
+        | Some (_, FGood (_, recs)) -> new_file None (FGood (n !nfiles, recs))
+        | Some (_, FBad) -> new_file None FBad
+        | None -> ())
     | "I" -> add (RPit (Stdlib.List.map (fun x -> wire_peer 4 (int_of_n x)) (plist (t 1))))
     | "T" ->
         let es = if t 3 = "-" then [] else
@@ -228,7 +251,7 @@ let run_case (line : string) : string =
     | "K" -> add (RMsg (wire_peer (i 1) (i 2), BSkip))
     | "S" -> add (RState (wire_peer (i 1) (i 2), n (i 3), n (i 4)))
     | "N" -> add ROther
-    | "W" -> barrier ()
+    | "W" | "B" -> barrier ()
     | "Q" | "QX" ->
         barrier ();
         let af = n (i 1) in
